@@ -604,10 +604,14 @@ def _peak_is_too_narrow(
 ) -> bool:
     fwhm = peak.fwhm(popt)
     coord = data.coords[data.dim]
-    center_idx = np.argmin(abs(coord.values - popt['peak_loc'].values))
+    center_idx = int(np.argmin(abs(coord.values - popt['peak_loc'].values)))
     # Average of bins around center index.
     # Bins don't normally vary quickly, so this is a good approximation.
-    bin_width = (coord[center_idx + 1] - coord[center_idx - 1]) / 2
+    # At the ends of the window, use the one-sided spacing instead of indexing
+    # out of range (or wrapping around to the other end).
+    lo_idx = max(center_idx - 1, 0)
+    hi_idx = min(center_idx + 1, len(coord) - 1)
+    bin_width = (coord[hi_idx] - coord[lo_idx]) / (hi_idx - lo_idx)
     return (fwhm < fit_requirements.min_peak_width_factor * bin_width).value
 
 
